@@ -1042,3 +1042,15 @@ MANIFEST = dict(
     technique='Coq proof (parametric in MAC/pickle; base64 injectivity; scanner lemmas) + correspondence + oracle',
     design_ref='DESIGN.md section 4, C15',
 )
+
+
+# dev-only: VERIF_COVERAGE=1 ./check C15 --no-coq  (AUDIT_BRIEF.md item 1)
+COVERAGE_TARGETS = {
+    'ombott/common_helpers.py': ['cookie_encode', 'cookie_decode', 'tob', 'touni'],
+    'ombott/response.py': ['BaseResponse.set_cookie', 'BaseResponse.delete_cookie', 'BaseResponse.copy',
+                           'BaseResponse.headerlist', 'http_date'],
+    'ombott/request_pkg/props_mixin.py': ['PropsMixin.cookies', 'PropsMixin.get_cookie', 'PropsMixin.headers'],
+    'ombott/request_pkg/helpers.py': ['CookieDict.', 'WSGIHeaderDict.'],
+}
+from props import hdrF_cov  # noqa: E402
+run_impl = hdrF_cov.wrap(ID, run_impl, COVERAGE_TARGETS)
